@@ -321,8 +321,11 @@ M('F34R', 'src/xdoctest/runner.py', """                    if re.match(r'\\s*fro
 M('F35R', 'src/xdoctest/directive.py', """    for match in re.finditer(r',|\\(|\\)|(?<![,\\s])\\s+(?=[+-])', optstr):""", """    for match in re.finditer(r',|\\(|\\)', optstr):""", ['C04', 'C20'], 'F35 repair reverted: options separated by blanks only are one unknown directive')
 M('F37R', 'src/xdoctest/parser.py', """        line_iter = enumerate(utils.util_str.split_lf_lines(string))""", """        line_iter = enumerate(string.splitlines())""", ['C13', 'C01', 'C18'], 'F37 repair reverted (parser): docstring lines are split at form feeds and unicode separators too')
 M('F37bR', 'src/xdoctest/doctest_part.py', """        part_lines = utils.util_str.split_lf_lines(src_text)""", """        part_lines = src_text.splitlines()""", ['C18'], 'F37 repair reverted (display): a source line holding a separator character is shown as two lines')
-M('F38R', 'src/xdoctest/parser.py', """                pt = static.six_axt_parse(plain_source_block)
-                source_block = plain_source_block""", """                raise""", ['C01', 'C13'], 'F38 repair reverted: a comment between a decorator and its def makes the doctest unparsable')
+# (F38R - the chunk-wide fallback removed - withdrawn: since F38b judges each comment line on its own the fallback is a
+# safety net that no generated input reaches; F38bR switches the per-line rule off instead)
+M('F38bR', 'src/xdoctest/parser.py', """                        if re.match(r'(else|elif|except|finally)\\b', nxt):
+                            return False""", """                        if re.match(r'(else|elif|except|finally)\\b', nxt):
+                            return True""", ['C18'], 'F38b repair reverted: a comment in front of an else falls back to the chunk-wide parse')
 M('F39R', 'src/xdoctest/parser.py', """                if lineno > prev_end:
                     # (a statement behind a semicolon on the closing line of
                     # a multi-line statement does not start a line)
